@@ -18,7 +18,9 @@ CONFIG = ('field', SELF, 'config')
 
 MUTATORS = {'insert', 'remove', 'push', 'clear', 'take', 'retain', 'extend', 'drain', 'push_str', 'entry',
             'pop', 'truncate', 'replace', 'append', 'remove_entry', 'swap_remove', 'sort', 'dedup',
-            'get_or_insert_with', 'insert_to_nick_history'}
+            'get_or_insert_with', 'get_or_insert', 'get_or_insert_default', 'insert_to_nick_history'}
+# Option methods that leave the place `Some(..)` (the write-back half of take()/modify/Some(..))
+ENSURE_SOME = ('get_or_insert_with', 'get_or_insert', 'get_or_insert_default')
 
 
 def has(m, k):
